@@ -230,7 +230,7 @@ class Runner:
             names = []
         return sorted({os.path.normpath(n) for n in names})
 
-    def reference(self, op, seed: int = 0):
+    def reference(self, op, seed: int = 0, opts: dict | None = None):
         """Outcome of `op` performed first in a pristine process on the directory as it is now.
 
         Memoised by (operation, contents of every file it names, fault plan): a reference
@@ -242,7 +242,7 @@ class Runner:
             self.ref_hits += 1
             return hit
         self.ref_evals += 1
-        res = run_child(self.root, [op], seed, self.timeout_s)
+        res = run_child(self.root, [op], seed, self.timeout_s, opts)
         out = (res["outcomes"][0], res["fired"][0], res["events"])
         self.memo[key] = out
         if op["op"] == "cli":
